@@ -60,9 +60,9 @@ func (f *Progx) Call(s *slip.Scope, args slip.List, depth int) slip.Object {
 			if tr.Tag == nil {
 				return tr.Result
 			}
-			if s.Block {
-				return tr
-			}
+			// return-from made sure a block with that name encloses
+			// this form.
+			return tr
 		case *GoTo:
 			for i++; i < len(args); i++ {
 				if args[i] == tr.Tag {
